@@ -108,7 +108,7 @@ class Ctx:
         st = out.get("stats", {})
         for k in ("assign_choices", "inversions", "stalls", "tasks", "workers_forked", "bytes_task", "bytes_result",
                   "task_exceptions", "bytes_destroyed", "worker_output_handles", "rounds_with_tasks", "unordered_maps",
-                  "late_starts", "fd_limited_workers"):
+                  "late_starts", "fd_limited_workers", "stale_pool_reuses"):
             self.faults[k] = self.faults.get(k, 0) + st.get(k, 0)
         for k in ("max_overtaken", "max_tasks_one_worker"):
             self.faults[k] = max(self.faults.get(k, 0), st.get(k, 0))
